@@ -39,6 +39,7 @@ type Addr struct {
 	field int
 	typ   types.Type // pointee type
 	name  string     // aGlobal: heap name
+	glob  *ssa.Global
 }
 
 type deferEntry struct {
@@ -97,6 +98,8 @@ type Obligation struct {
 	exceptObl *Obligation
 	clause    *Clause
 	ModelWeak bool // model found after dropping background axioms (candidate only)
+	failedPart *Obligation
+	parts     []*Obligation // when set: the obligation holds iff every part does (one part per return path)
 }
 
 // Run is the verification of one function under contract.
@@ -153,6 +156,13 @@ func (r *Run) define(prefix, sort, expr string) string {
 	return n
 }
 
+// constOf introduces a declared constant equal to expr (unlike define, usable inside quantifier patterns).
+func (r *Run) constOf(prefix, sort, expr string) string {
+	n := r.declare(prefix, sort)
+	r.emit(app("assert", eq(n, expr)))
+	return n
+}
+
 func (r *Run) assume(st *State, f string) {
 	if f == "true" {
 		return
@@ -174,6 +184,11 @@ func (r *Run) assumeBG(f string) {
 		return
 	}
 	r.emit(app("assert", f) + " ;bg")
+}
+
+// assumeBGIn: background fact that only matters on the paths through st.
+func (r *Run) assumeBGIn(st *State, f string) {
+	r.emit(app("assert", implies(st.reach, f)) + " ;bg")
 }
 
 func (r *Run) oblName(base string) string {
@@ -341,6 +356,10 @@ func (r *Run) typeInvRefOnly(x string, t types.Type, st *State) string {
 	switch t.Underlying().(type) {
 	case *types.Struct, *types.Array:
 		return "true"
+	case *types.Basic:
+		// integer ranges are asserted on the individual values that are read (loads, contract reads):
+		// a quantified range axiom per heap version makes E-matching explode together with array stores
+		return "true"
 	}
 	return r.typeInv(x, t, st)
 }
@@ -482,7 +501,22 @@ func (r *Run) load(st *State, a *Addr) TV {
 	case aGlobal:
 		sort := s.sortOf(a.typ)
 		r.eng.globalHeapName(a.name, a.typ)
-		return TV{r.heapGet(st, a.name), sort, a.typ}
+		_, declared := r.heapInit[a.name]
+		h := r.heapGet(st, a.name)
+		if !declared && a.glob != nil {
+			if gf := r.eng.globalFactOf(a.glob); gf.immutable {
+				init := r.heapInit[a.name]
+				if gf.nonNilErr {
+					r.assumeGlobal(not(eq(app("i_tag", init), "0")))
+					r.assumed["global initialised once by its package and never reassigned: "+a.glob.String()+" != nil"] = true
+				}
+				if gf.constInit != nil {
+					r.assumeGlobal(eq(init, r.constVal(gf.constInit).S))
+					r.assumed["global initialised once by its package and never reassigned: "+a.glob.String()] = true
+				}
+			}
+		}
+		return TV{h, sort, a.typ}
 	}
 	panic("bad addr")
 }
